@@ -253,7 +253,7 @@ def check_pair(ctx, case, rng):
     v4 = case.get('v4', False)
     dopts = list(case.get('dopts', []))
     src = write_src(ctx, sfmt, bank, rng, senc, case.get('gz'), v4)
-    dest = ctx.path('.' + dfmt)
+    dest = common.preexisting(ctx, ctx.path('.' + dfmt), rng)
     rc, err = convert(ctx, src, dest, sfmt, dfmt, senc, denc, dopts)
     if rc != 0:
         mech = 'exit-status-%s->%s' % (sfmt, dfmt)
@@ -616,7 +616,7 @@ def run_driver(ctx, case, rng):
     sfmt, dfmt = case['src'], case['dst']
     src = write_src(ctx, sfmt, case['bank'], rng, case['senc'], case['gz'],
                     False)
-    dest = ctx.path('.' + dfmt)
+    dest = common.preexisting(ctx, ctx.path('.' + dfmt), rng)
     args = ['transform', src, dest, '--src-format', sfmt, '--dest-format',
             dfmt, '--src-enc', case['senc'], '--dest-enc', case['denc'],
             '--src-opts'] + case['sopts']
